@@ -24,23 +24,23 @@ func init() {
 		Assumptions: []string{"regexp/syntax parses the validator's pattern as the regexp package does", "filepath.Join of a validated name cannot leave the source directory"},
 		Rules: []*core.Rule{
 			{ID: "C14-R1", Title: "import paths are validated by an anchored identifier pattern", Floor: 4, Run: c14r1},
-			{ID: "C14-R2", Title: "import opcodes and importModule have a single producer chain", Floor: 4, Run: c14r2},
-			{ID: "C14-R3", Title: "importer joins the validated name under its root", Floor: 2, Run: c14r3},
+			{ID: "C14-R2", Title: "import opcodes and importModule have a single producer chain", Floor: 2, Run: c14r2},
+			{ID: "C14-R3", Title: "importer joins the validated name under its root", Floor: 1, Run: c14r3},
 			{ID: "C14-R4", Title: "module cache: miss-then-import, register after the body ran", Floor: 3, Run: c14r4},
 			{ID: "C14-R5", Title: "a code object's globals array is installed at creation and never replaced", Floor: 2, Run: c14r5},
 			{ID: "C14-R6", Title: "every module has a code object of its own", Floor: 2, Run: importerCodePerName},
 			{ID: "C14-R7", Title: "reload re-points only the functions of the reloaded main code (shared with C18-R3)", Floor: 2, Run: c18r3},
-			{ID: "C14-R8", Title: "the validated import path is the path the node keeps", Floor: 2, Run: validatedPathIsStoredPath},
+			{ID: "C14-R8", Title: "the validated import path is the path the node keeps", Floor: 1, Run: validatedPathIsStoredPath},
 			{ID: "C14-R9", Title: "a failed import is not remembered", Floor: 1, Run: errorsAreNotCached},
-			{ID: "C14-R10", Title: "Import returns a module object built in that call", Floor: 2, Run: importersReturnFreshModules},
+			{ID: "C14-R10", Title: "Import returns a module object built in that call", Floor: 1, Run: importersReturnFreshModules},
 			{ID: "C14-R11", Title: "a module reads its attributes from the live globals of its code", Floor: 1, Run: moduleGlobalsAliasLive},
-			{ID: "C14-R12", Title: "the module table is rebuilt for new code: an import is resolved by this evaluation's importer (shared with C11-R5)", Floor: 2, Run: c11r5},
+			{ID: "C14-R12", Title: "the module table is rebuilt for new code: an import is resolved by this evaluation's importer (shared with C11-R5)", Floor: 1, Run: c11r5},
 			{ID: "C14-R13", Title: "the import root is fixed (absolute) when the importer is built", Floor: 1, Run: importRootFixedAtConstruction},
-			{ID: "C14-R14", Title: "imports bind the module's own objects", Floor: 2, Run: importsBindTheModulesOwnObjects},
+			{ID: "C14-R14", Title: "imports bind the module's own objects", Floor: 1, Run: importsBindTheModulesOwnObjects},
 			{ID: "C14-R15", Title: "names are resolved to slots through the name index", Floor: 1, Run: namesAreResolvedThroughTheNameIndex},
 			{ID: "C14-R16", Title: "import errors reach the script", Floor: 2, Run: importErrorsReachTheScript},
 			{ID: "C14-R17", Title: "modules in progress are not imported again", Floor: 1, Run: modulesInProgressAreNotImportedAgain},
-			{ID: "C14-R18", Title: "import statements always import", Floor: 2, Run: importStatementsAlwaysImport},
+			{ID: "C14-R18", Title: "import statements always import", Floor: 1, Run: importStatementsAlwaysImport},
 			{ID: "C14-R19", Title: "shared state is enumerated (shared with C09-R18)", Floor: 1, Run: sharedStateIsEnumerated},
 			{ID: "C14-R20", Title: "a root is loaded only when it is asked for", Floor: 3, Run: rootsAreLoadedOnlyWhenAskedFor},
 			{ID: "C14-R21", Title: "a Config is applied to the VM as a whole (shared with C11-R24)", Floor: 3, Run: theConfigurationIsAppliedAsAWhole},
@@ -48,8 +48,8 @@ func init() {
 			{ID: "C14-R23", Title: "a verdict about a module names the module", Floor: 1, Run: verdictsAboutAModuleNameTheModule},
 			{ID: "C14-R24", Title: "an importer's failure is not taken for absence", Floor: 2, Run: importerFailuresAreNotTakenForAbsence},
 			{ID: "C14-R25", Title: "the import root is absolute whenever it can be", Floor: 1, Run: theImportRootIsAbsoluteWheneverItCanBe},
-			{ID: "C14-R26", Title: "an option of the VM sets its field whatever the value is", Floor: 3, Run: vmOptionsSetWhatTheyAreGiven},
-			{ID: "C14-R27", Title: "strings in import statements are validated by the function that accepts them", Floor: 2, Run: stringsInImportStatementsAreValidated},
+			{ID: "C14-R26", Title: "an option of the VM sets its field whatever the value is", Floor: 1, Run: vmOptionsSetWhatTheyAreGiven},
+			{ID: "C14-R27", Title: "strings in import statements are validated by the function that accepts them", Floor: 1, Run: stringsInImportStatementsAreValidated},
 		},
 	})
 }
